@@ -35,7 +35,7 @@ META = {
     'technique': 'Rocq/Coq proof over hand model with by-reference heap + generated tables + vm_compute correspondence + live handshakes',
 }
 IMPORTS = ['Gen.SettingsTables', 'Model.C19_Settings', 'Model.C19_Repo', 'Spec.C19_Domain']
-MODEL_TARGETS = ['Gen/SettingsTables.vo', 'Model/C19_Settings.vo', 'Model/C19_Repo.vo', 'Spec/C19_Domain.vo']
+MODEL_TARGETS = ['Gen/SettingsTables.vo', 'Model/C19_Settings.vo', 'Model/C19_Repo.vo', 'Spec/C19_Domain.vo', 'Spec/C19_Compat.vo']
 
 PREAMBLE = '''
 Definition chk_domain (c : (heap * settings) * bool) : bool :=
